@@ -37,7 +37,11 @@ impl<I: Interner> RenderAsRust<I> for AssocTypeId<I> {
         write!(
             f,
             "{}",
-            s.alias_for_id_name(self.0, s.db().assoc_type_name(*self))
+            s.alias_for_assoc_type_id_name(
+                self.0,
+                s.db().associated_ty_data(*self).trait_id.0,
+                s.db().assoc_type_name(*self)
+            )
         )
     }
 }
